@@ -18,6 +18,7 @@ type Occ struct {
 	K string `json:"k,omitempty"` // binder kind (defun gset macro param let let* flet labels dotimes macrolet)
 	C string `json:"c,omitempty"` // occurrence context
 	Q bool   `json:"q,omitempty"` // written inside a [...] bracket list
+	P string `json:"p,omitempty"` // package of a global binder
 }
 
 type File struct {
@@ -42,6 +43,10 @@ type Case struct {
 	RenameExports  bool      `json:"rename_exports"`
 	Exclusions     []string  `json:"exclusions,omitempty"`
 	Feat           []string  `json:"feat,omitempty"`
+	// Expect is only set on the hand-minimised sessions of the "fixed"
+	// sub-property (which carry no annotations): the class signature to report
+	// IF the differential oracle fails on them.
+	Expect string `json:"expect,omitempty"`
 }
 
 // ---------- emitter ----------
@@ -51,6 +56,7 @@ type em struct {
 	occ  []Occ
 	last byte
 	br   int // open [ ] depth
+	ctx  string // when set, overrides the context of every symbol written
 }
 
 func (e *em) sep() {
@@ -75,6 +81,9 @@ func (e *em) sym(o Occ) {
 	e.sep()
 	e.w(o.N)
 	o.Q = e.br > 0
+	if e.ctx != "" {
+		o.C = e.ctx
+	}
 	e.occ = append(e.occ, o)
 }
 
@@ -102,6 +111,7 @@ type sig struct {
 	opt  int // number of &optional (number typed) parameters
 	rest bool
 	keys []string
+	keyIDs []int // binder ids of the &key parameters
 	ret  Ty
 }
 
@@ -132,5 +142,6 @@ type pkg struct {
 	name    string
 	own     map[string]*bind
 	imports map[string]*bind
+	impFile map[string]int // file index of the use-package form that imported the name
 	exports []*bind
 }
